@@ -15,7 +15,7 @@ ANCHORS = ['phylib.io.merge:Merger.write_channel_data', 'phylib.io.merge:Merger.
            'phylib.io.merge:Merger.write_templates', 'phylib.io.merge:Merger.write_template_data',
            'phylib.io.merge:Merger.write_misc', 'phylib.io.merge:Merger.write_params']
 RULE = ('Same generated merges as C11 (1-4 probes, channel counts 2-7 and template counts 2-6 drawn '
-        'independently, permuted channel maps, index tables int32/uint32/int64, whitening / similarity '
+        'independently, permuted channel maps, index tables int32/uint32/int64 or a different dtype per probe, occasionally a non-last probe with 70 or 130 templates, whitening / similarity '
         'matrices in all / some / none of the probes, templates without spikes). C12 oracle on the output '
         'files: channel_probe labels and contiguous channel blocks in input order; geometry of each block = '
         'input geometry + one x translation, blocks disjoint in x; template (k, t) found at the row its '
